@@ -182,6 +182,10 @@ def validate_fs_traces(results, specs, chunk=400):
     for res, spec in zip(results, specs):
         if res.get("error"):
             continue
+        if res.get("status") != "ok" and len(res.get("events", [])) > 4000:
+            # a run that did not end by itself (killed after its time limit, e.g. an endless loop in the code under test):
+            # a prefix of its trace is still a real execution prefix; the abnormal end itself is reported by the caller
+            res = dict(res, events=res["events"][:4000])
         batch += project_fs(res, spec)
         n_tr += 1
         nb += 1
